@@ -105,8 +105,19 @@ def run(ctx):
                 if p.returncode == 0 or not p.stderr.strip():
                     violations.append({'property': 'C20', 'relation': 'input that cannot be opened (%s): non-zero status and a message on standard error' % what, 'args': ['--on-error=' + pol, '--'] + [os.path.relpath(x, d) for x in paths],
                                        'stdin_hex': '', 'stdout_mode': 'pipe', 'unopenable': what, 'observed': 'exit %d, stderr %r' % (p.returncode, p.stderr[:120]), 'expected': 'non-zero, message'})
+        # input that cannot be read: standard input is a directory (read fails with EISDIR) — a failed run under every policy:
+        # non-zero status, the message on standard error, and nothing but rows on standard output
+        for pol in ('ignore', 'stdout', 'stderr', 'panic'):
+            fd = os.open(os.path.join(d, 'dir'), os.O_RDONLY)
+            try: p = subprocess.run([lib.JAWK_BIN, '--on-error=' + pol], stdin=fd, stdout=subprocess.PIPE, stderr=subprocess.PIPE, timeout=30)
+            finally: os.close(fd)
+            checked += 1
+            if p.returncode == 0 or not p.stderr.strip() or p.stdout.strip():
+                violations.append({'property': 'C20', 'relation': 'input that cannot be read (standard input is a directory): non-zero status, message on standard error, nothing on standard output',
+                                   'args': ['--on-error=' + pol], 'stdin_hex': '', 'stdout_mode': 'pipe', 'stdin_is_directory': True,
+                                   'observed': 'exit %d, stdout %r, stderr %r' % (p.returncode, p.stdout[:120], p.stderr[:120]), 'expected': 'non-zero, empty stdout, message on stderr'})
     finally: shutil.rmtree(d, ignore_errors=True)
-    cov = {'evaluations': len(cases) + 12, 'distinct_nontrivial': len(set((tuple(lib.cfg_args(c['cfg'])), c['inputs'][0]['data'], md) for c, md, _ in jobs)),
+    cov = {'evaluations': len(cases) + 16, 'distinct_nontrivial': len(set((tuple(lib.cfg_args(c['cfg'])), c['inputs'][0]['data'], md) for c, md, _ in jobs)),
            'rule': 'the real binary as a child process on generated clean/noisy inputs (some cut off inside their last value) x the four --on-error policies x valid and invalid configurations x stdout a pipe, a closed pipe, or /dev/full; row separators with and without a line break',
            'samples': [dict(common.describe(c), stdout_mode=md) for c, md, _ in jobs[:2]],
            'traces_validated_against_impl': len(cases) - len(mism), 'model_mismatches': len(mism), 'direct_relations_checked': checked}
@@ -114,6 +125,11 @@ def run(ctx):
     return {'coverage': cov, 'violations': violations, 'broken': broken}
 
 def replay(ctx, r):
+    if r.get('stdin_is_directory'):
+        fd = os.open('/', os.O_RDONLY)
+        try: p = subprocess.run([lib.JAWK_BIN] + r['args'], stdin=fd, stdout=subprocess.PIPE, stderr=subprocess.PIPE, timeout=30)
+        finally: os.close(fd)
+        return {'observed': {'exit': p.returncode, 'stdout': p.stdout.decode('utf8', 'replace')[:200], 'stderr': p.stderr.decode('utf8', 'replace')[:200]}, 'fails': p.returncode == 0 or not p.stderr.strip() or bool(p.stdout.strip())}
     if r.get('unopenable'):
         import tempfile, shutil
         d = tempfile.mkdtemp()
